@@ -276,6 +276,7 @@ inductive LMut where
   | remove (v : T)
   | reverse
   | sort (perm : List Nat)        -- outcome of a successful `sort(key=…, reverse=…)`: new position ↦ old position
+  | sortFail                      -- `sort()` that raised (items that cannot be compared) and left the order as it was
   | clear
   | iadd (k : IterKind) (vs : List T)
   | imul (n : Int)
@@ -296,7 +297,7 @@ def LMut.meth : LMut → LM
   | .setitem _ _ | .setslice _ _ _ _ => .setitem
   | .delitem _ | .delslice _ _ => .delitem
   | .append _ => .append | .extend _ _ => .extend | .insert _ _ => .insert | .pop _ => .pop | .remove _ => .remove
-  | .reverse => .reverse | .sort _ => .sort | .clear => .clear | .iadd _ _ => .iadd | .imul _ => .imul
+  | .reverse => .reverse | .sort _ | .sortFail => .sort | .clear => .clear | .iadd _ _ => .iadd | .imul _ => .imul
 
 def DMut.meth : DMut → DM
   | .setitem _ _ => .setitem | .delitem _ => .delitem | .update _ _ _ => .update | .setdefault _ _ => .setdefault
@@ -341,6 +342,7 @@ def lEffect : LMut → Items → Except Err Items
       | none => .error .value
   | .reverse, xs => .ok xs.reverse
   | .sort perm, xs => .ok (perm.filterMap (fun i => xs[i]?))
+  | .sortFail, _ => .error .type
   | .clear, _ => .ok []
   | .iadd _ vs, xs => .ok (xs ++ vs.map li)
   | .imul n, xs => .ok (List.replicate n.toNat xs).flatten
